@@ -23,6 +23,9 @@ type Visit struct {
 	Err     string
 }
 
+// StubReadSize is the size of the buffer the recording stubs read with (0 = 4096).
+var StubReadSize int
+
 var (
 	stubMu   sync.Mutex
 	visits   []*Visit
@@ -64,7 +67,11 @@ func record(name string, reply string, conn net.Conn) error {
 	if reply != "" {
 		conn.Write([]byte(reply))
 	}
-	buf := make([]byte, 4096)
+	size := StubReadSize
+	if size <= 0 {
+		size = 4096
+	}
+	buf := make([]byte, size)
 	for {
 		n, err := conn.Read(buf)
 		stubMu.Lock()
